@@ -9,17 +9,41 @@ tvars == <<vars, l, div, devAll>>
 TInit == Init /\ l = 1 /\ div = NoDiv /\ devAll = {} /\ TLCSet(1, 1) /\ TLCSet(2, NoDiv) /\ TLCSet(3, {})
 
 Has(ev, f) == f \in DOMAIN ev
+(* JSON arrays standing for sets are compared as sets *)
+Norm(o) == [o EXCEPT !.utxo = Range(@), !.pool = Range(@)]
 Act(ev) ==
   CASE ev.op = "reset"   -> Reset
     [] ev.op = "submit"  -> Submit(ev.t)
     [] ev.op = "mkblock" -> MkAnyBlock(ev.p, ev.txs)
     [] ev.op = "play"    -> Play(ev.b, ev.res)
     [] ev.op = "mine"    -> IF Range(ev.txs) = pool /\ NoDupSeq(ev.txs) THEN Mine(ev.txs) ELSE Mine(TopoOrder(pool))
-    [] ev.op = "walk"    -> Walk(ev.d, ev.prune, Range(ev.obs.pool))
+    [] ev.op = "pfm"     -> PlayForMiner(ev.b)
+    [] ev.op = "walk"    -> Walk(ev.d, ev.prune, Range(ev.obs.pool), IF Has(ev, "readmit") THEN ev.readmit ELSE <<>>)
     [] ev.op = "restart" -> Restart
 
-(* JSON arrays standing for sets are compared as sets *)
-Norm(o) == [o EXCEPT !.utxo = Range(@), !.pool = Range(@)]
+(* C06 / C05: the node reopened on the image after the j-th storage write of the operation (crash point), or the
+   live node after the (j+1)-th write was made to fail, must answer like the specification's persisted state
+   after j writes; then "sync to the ledger tip" + pool roll-back must reach the replay of the ledger tip.
+   Only walks have more than one write; for every other operation the cut after its single write is the
+   post-state and the cut after zero writes the pre-state. *)
+(* Walk cuts are judged against the pre-state (unprimed); the single cut of any other operation is its
+   post-state and is judged one step later, when that state is the current one (large expressions are not
+   evaluated under a prime: TLC does not cache lazily evaluated values there). *)
+WalkCutsOK(ev) ==
+  ~(Has(ev, "cuts") /\ ev.op = "walk") \/
+  \E w \in {WalkChoice(ev.d, ev.prune, Range(ev.obs.pool), IF Has(ev, "readmit") THEN ev.readmit ELSE <<>>)} :
+    \A i \in DOMAIN ev.cuts :
+      \E c \in {ev.cuts[i]} :
+      \E rec \in {IF c.j <= Len(w.steps) THEN w.steps[c.j] ELSE w.steps[Len(w.steps)]} :
+         /\ Norm(c.obs) = ObsOf(rec, ltip)
+         /\ Has(c, "sync") => \E e \in {SyncObs(rec)} : c.syncres = e.res /\ Norm(c.sync) = e.obs
+PrevCutsOK ==
+  l = 1 \/ \E pe \in {Trace[l - 1]} :
+    (Has(pe, "cuts") /\ pe.op # "walk" /\ dev = {}) =>
+       \A i \in DOMAIN pe.cuts :
+          \E c \in {pe.cuts[i]} :
+             /\ Norm(c.obs) = Obs
+             /\ Has(c, "sync") => \E e \in {SyncObs(CurRec)} : c.syncres = e.res /\ Norm(c.sync) = e.obs
 
 (* After a known deviation has changed an outcome the node is, by the finding itself, in a state the
    IDEAL design does not have; the rest of that behaviour is not judged (until the next reset). *)
@@ -29,14 +53,17 @@ TStep ==
   /\ LET ev == Trace[l] IN
      /\ IF Tainted /\ ev.op # "reset" THEN UNCHANGED vars ELSE Act(ev)
      /\ devAll' = devAll \cup dev'
-     /\ div' = IF ev.op = "reset" \/ Tainted \/ dev' # {} THEN NoDiv
+     /\ div' = IF ~PrevCutsOK THEN [at |-> l - 1, tr |-> Trace[l - 1].tr, op |-> Trace[l - 1].op, expres |-> "-", actres |-> "-",
+                                     exp |-> Obs, act |-> Trace[l - 1].cuts[1].obs, which |-> "cut"]
+               ELSE IF ev.op = "reset" \/ Tainted \/ dev' # {} THEN NoDiv
                ELSE LET r == hist'[Len(hist')].res
                         okLive == Norm(ev.obs) = Obs'
-                        okReopen == Has(ev, "robs") => Norm(ev.robs) = Obs' IN
-                    IF r = ev.res /\ okLive /\ okReopen THEN NoDiv
+                        okReopen == Has(ev, "robs") => Norm(ev.robs) = Obs'
+                        okCuts == WalkCutsOK(ev) IN
+                    IF r = ev.res /\ okLive /\ okReopen /\ okCuts THEN NoDiv
                     ELSE [at |-> l, tr |-> ev.tr, op |-> ev.op, expres |-> r, actres |-> ev.res, exp |-> Obs',
                           act |-> IF okLive /\ Has(ev, "robs") THEN ev.robs ELSE ev.obs,
-                          which |-> IF r # ev.res THEN "result" ELSE IF ~okLive THEN "live" ELSE "reopened"]
+                          which |-> IF r # ev.res THEN "result" ELSE IF ~okLive THEN "live" ELSE IF ~okReopen THEN "reopened" ELSE "cut"]
   /\ l' = l + 1
 TSpec == TInit /\ [][TStep]_tvars
 
